@@ -1,6 +1,6 @@
 //! C06 — JSON index navigation reproduces every valid document's value.
 //!
-//! usage: c06 record <out.ndjson> seed=N docs=N [large=BYTES] [treemax=N] [walks=N] [steps=N]
+//! usage: c06 record <out.ndjson> seed=N docs=N [large=BYTES] [nlarge=N] [treemax=N] [walks=N] [steps=N]
 //!
 //! Events (validated by spec/Trace_JsonDoc.tla):
 //!   {"e":"build","doc":i,"family":..,"variant":"build","len":bytes,"r":#nodes,"tree":{nested, small docs only},
@@ -26,6 +26,7 @@ fn run(args: Args) {
     let treemax = args.u64("treemax", 40) as usize;
     let walks = args.u64("walks", 2) as usize;
     let steps = args.u64("steps", 60) as usize;
+    let maxlarge = args.u64("nlarge", 2) as usize;
     let mut tr = Trace::create(&args.pos[1]);
     let mut dropped = 0usize;
     let mut bytes = 0usize;
@@ -37,7 +38,7 @@ fn run(args: Args) {
         let mut fam = FAMILIES[i % FAMILIES.len()];
         if fam == "large" {
             nlarge += 1;
-            if nlarge > 2 {
+            if nlarge > maxlarge {
                 fam = "medium";
             }
         }
